@@ -148,6 +148,112 @@ CLAIMS["C18"] = {
     "note": "The re-serialisation self-consistency clause (deserialize . serialize . deserialize) is outside: it needs "
             "whole Value trees. Visitors are abstract (arbitrary result), so totality of user visitors is not claimed.",
 }
+CLAIMS["C01"] = {
+    "engine": "E2-mirsym + E1-kani",
+    "design_ref": "DESIGN.md §1 C01",
+    "technique": "symbolic execution (z3) of printer and reader functions against one shared spelling table, composed per byte / token class",
+    "text": "Print half: every leaf formatter method, the string-escape and character writers and the list printer emit "
+            "the documented text for all arguments (E2, also Kani atoms into sinks). Parse half: R6RS escapes, #\\ "
+            "characters, the number scanner (C05), token dispatch and the list builders read exactly those spellings "
+            "back (E2). Composition: z3 decides for all 256 bytes that what the string printer emits is mapped back to "
+            "the same byte by the escape semantics; lists: dot emitted iff cdr is neither () nor a pair, and the builder "
+            "accepts exactly that form.",
+    "note": "The round trip is decided piecewise (per function, per byte class, per loop step) and composed through the "
+            "shared spec; whole nested values are not executed end to end (Kani cannot run the parser on symbolic input, "
+            "measured). ryu (float to shortest decimal) is a trusted dependency; names are abstract (no identifier grammar).",
+}
+CLAIMS["C02"] = {
+    "engine": "E2-mirsym",
+    "design_ref": "DESIGN.md §1 C02",
+    "technique": "symbolic execution (z3) with all printer option fields (576 sets) resp. all parser option fields (1536 sets) symbolic",
+    "text": "The customised formatter emits the documented spelling under every option set (nil x4, bool x2, keyword x3, "
+            "vector x2, bytes x3, char x2, string escapes x2); parse_token reads each of these spellings as the "
+            "corresponding token exactly under the compatible parser options (c08_token_dispatch); Emacs string "
+            "escapes, ?c characters and octal unibyte strings are read back as emitted.",
+    "note": "As C01: piecewise and composed through the spec tables; the documented nil/t/empty-bytes folding is part of "
+            "the spec. Elisp string scanning as a whole (multibyte/unibyte decision over a full string) is only covered per escape.",
+}
+CLAIMS["C06"] = {
+    "engine": "E2-mirsym + E1-kani",
+    "design_ref": "DESIGN.md §1 C06",
+    "technique": "symbolic execution with a reader that can fail at any position (z3); Kani three-way comparison of the reader kernels",
+    "text": "E2: in 23 scanner / kernel functions and the 4 builders a failing read (resp. failing callee) ends the "
+            "function with that error on every path - never a value, never EOF, never another error. E1: for every "
+            "input of <= 3 bytes the symbol scanner (quick) and the string / character scanners (thorough) give the same "
+            "result, error category and consumed prefix for byte-slice, stream and (valid UTF-8) str input.",
+    "note": "IoRead reads through io::Bytes one byte per read call, so chunking schedules are immaterial (stated, not "
+            "explored); Interrupted is retried inside std's Bytes (trusted). Whole-parser slice-vs-stream equality on "
+            "long inputs is not executed.",
+}
+CLAIMS["C08"] = {
+    "engine": "E2-mirsym",
+    "design_ref": "DESIGN.md §1 C08",
+    "technique": "symbolic execution of parse_token / parse_list with first byte, lookahead, all option fields and name predicates symbolic (z3)",
+    "text": "For every first byte, lookahead byte, all 1536 option sets and abstract names: each token kind is produced "
+            "exactly under the spelling and option that governs it, independent of the name's first byte class; numbers "
+            "only when the whole token is a literal (also in leading-digit mode); quote shorthands map to the four "
+            "heads; lists close only at their own closer, dotted tails included.",
+    "note": "Names are abstracted to three predicates (is nil, is t, ends with ':'); the scanners below parse_token are "
+            "separate claims. Non-interference between options follows from the classifier the code is checked against.",
+}
+CLAIMS["C10"] = {
+    "engine": "E2-mirsym",
+    "design_ref": "DESIGN.md §1 C10",
+    "technique": "lockstep symbolic execution of value and datum readers over shared symbolic callee results (z3)",
+    "text": "next_datum vs next_value, parse_list_meta vs parse_list, parse_vector_meta vs parse_vector: for every "
+            "reader / token / callee behaviour the datum variant takes exactly the same steps with the same arguments, "
+            "error codes, depth budget and empty/non-empty outcome.",
+    "note": "Datum accessor agreement (Ref::list_iter etc.) on built data is not decided (needs parsed Datums; Kani cannot "
+            "run the datum parser symbolically).",
+}
+CLAIMS["C11"] = {
+    "engine": "E1-kani + E2-mirsym",
+    "design_ref": "DESIGN.md §1 C11",
+    "technique": "Kani on the position layer of all three readers; symbolic execution of next_datum's span end points (z3)",
+    "text": "E1: for every buffer <= 5 bytes, consumed count and optional peek, SliceRead, StrRead and IoRead report the "
+            "same line / column / byte offset, equal to the specification. E2: next_datum records a datum's start right "
+            "after the preceding trivia and its end right after its last byte for all token kinds (quote shorthand head = "
+            "the shorthand characters).",
+    "note": "Containment / ordering of sibling spans and 're-parse of the covered text' are implied only for the top-level "
+            "datum of each recursion; not executed on arbitrary layouts (native span dump is used for replay only).",
+}
+CLAIMS["C13"] = {
+    "engine": "E2-mirsym",
+    "design_ref": "DESIGN.md §1 C13",
+    "technique": "symbolic execution of the readers of alternative spellings against the printers' canonical spellings (z3)",
+    "text": "Alternative spellings the parser accepts (radix prefixes, every escape, character names and hex scalars, "
+            "bracket lists, dotted tails, keywords in each syntax) denote values whose canonical printed form is read "
+            "back as the same token kind: token dispatch is closed under the printer's spellings for all option sets; "
+            "numeric normal forms via C05.",
+    "note": "Fixed-point of whole texts is not executed; lenient symbols with unusual constituents are not modelled (names abstract).",
+}
+CLAIMS["C16"] = {
+    "engine": "E1-kani",
+    "design_ref": "DESIGN.md §1 C16",
+    "technique": "CBMC per-function recursion bounds (--unwindset) with unwinding assertions on 5-element lists; native 300000-element witnesses",
+    "text": "For a 5-element list, clone and == complete with recursion depth <= 3 in the functions involved and the "
+            "iterators / indexing / predicates with no recursion; a function recursing per element violates the bound. "
+            "Violations are confirmed natively on 300000 elements with a 2 MiB stack.",
+    "note": "drop glue (Kani out of memory), Debug and the Datum operations are outside the solver's reach; two open "
+            "known findings (Datum clone/==, Debug) are re-checked natively on every run.",
+}
+CLAIMS["C17"] = {
+    "engine": "E2-mirsym + E1-kani",
+    "design_ref": "DESIGN.md §1 C17",
+    "technique": "symbolic execution of the escape decoders' appends to the scratch buffer (z3); Kani re-validation of returned names",
+    "text": "E2: R6RS escapes append only ASCII bytes or the UTF-8 encoding of a valid scalar value; Emacs escapes append "
+            "raw bytes only on the unibyte path; kernels are panic-free. E1: every name the symbol scanner returns from "
+            "arbitrary bytes (slice, stream) or valid UTF-8 (str, unchecked path) re-validates (<= 2 bytes quick, <= 3 thorough).",
+    "note": "The printer side (to_string == to_vec) is checked natively by the print corpus only.",
+}
+CLAIMS["C19"] = {
+    "engine": "E2-mirsym + E1-kani",
+    "design_ref": "DESIGN.md §1 C19",
+    "technique": "symbolic execution of Error::classify / From<Error> and of the scanners' EOF paths (z3); Kani on reported positions",
+    "text": "classify and io::Error conversion for all 19 codes; an error decided on a read at end of input is an EOF-"
+            "category error in the number scanner and the 11 reader kernels; every reported position lies inside the input (E1).",
+    "note": "Two open known findings (character names / hex scalars cut at end of input) are excluded by a named predicate.",
+}
 
 NOT_APPLICABLE = {
     "C09": "each point of the quantifier is a Rust program that must be compiled; the macro consumes proc_macro2 "
